@@ -1,5 +1,5 @@
 (* Props_C08.v — property C08: theorem statements only. *)
-From Verif Require Import Base Sem Where_Model Where_Proofs Where_Render Where_Sem.
+From Verif Require Import Base Sem Where_Model Where_Proofs Where_Render Where_Sem C08_Hist C08_HistProofs.
 
 (* Whatever conditions a chain supplies (any number of Where/Not/Or calls in any order, any
    form), the WHERE expressions of a soft-delete statement never contain an OR alternative at
@@ -50,4 +50,50 @@ Print Assumptions c08_deleted_row_never_selected.
 Example c08_instance :
   let exprs := [XOr [XRaw true [TAtom 1; TOr; TAtom 2]]; XAnd [XAtom 3 53; XAtom 4 54]] in
   ok_where (soft_delete_exprs 40 90 exprs) = true.
+Proof. vm_compute. reflexivity. Qed.
+
+(* HISTORIES.  For every history of creates, deletes, updates and reads, scoped or Unscoped, with
+   any conditions over the key and the data column, from any table: what a caller who never says
+   Unscoped can see of the table afterwards, and the result of every one of his operations, are
+   exactly what the same history yields on a plain table that never held the marked rows and on
+   which Delete removes rows ("behaves as if the marked rows did not exist"). *)
+Theorem c08_history_as_if_absent : forall ops s,
+  erase (fst (hrun s ops)) = fst (prun (erase s) ops) /\
+  scoped_obs ops (snd (hrun s ops)) = scoped_obs ops (snd (prun (erase s) ops)).
+Proof. exact run_sim. Qed.
+Print Assumptions c08_history_as_if_absent.
+
+(* a step without Unscoped leaves every marked row as it was, value and stamp *)
+Theorem c08_marked_rows_untouched : forall s o r,
+  is_scoped o = true -> In r s -> live r = false -> In r (fst (hstep s o)).
+Proof. exact marked_untouched. Qed.
+Print Assumptions c08_marked_rows_untouched.
+
+(* Delete without Unscoped marks: no row leaves the table *)
+Theorem c08_delete_marks : forall s o, is_scoped o = true ->
+  map hid (fst (hstep s o)) = map hid s ++ match o with OCreate i _ => [i] | _ => [] end.
+Proof. exact scoped_keeps_rows. Qed.
+Print Assumptions c08_delete_marks.
+
+(* a repeated Delete changes nothing, not even the stamp of the rows marked by the first *)
+Theorem c08_repeated_delete : forall s p t t',
+  fst (hstep (fst (hstep s (ODelete p t))) (ODelete p t')) = fst (hstep s (ODelete p t)).
+Proof. exact delete_idem. Qed.
+Print Assumptions c08_repeated_delete.
+
+(* with Unscoped, Delete removes rows physically and reads see the marked rows again *)
+Theorem c08_unscoped_delete_removes : forall s p r, In r (fst (hstep s (OUDelete p))) -> rholds p r = false.
+Proof. exact udelete_removes. Qed.
+Print Assumptions c08_unscoped_delete_removes.
+Theorem c08_unscoped_sees_marked : forall s p r,
+  In r s -> rholds p r = true -> In (hid r) (snd (hstep s (OUFind p))).
+Proof. exact ufind_sees_marked. Qed.
+Print Assumptions c08_unscoped_sees_marked.
+
+(* the premises are satisfiable and the statements not vacuous: a history that marks, re-reads,
+   re-deletes and finally removes *)
+Example c08_history_example :
+  let s0 := [mk_hrow 1 0 None; mk_hrow 2 0 (Some 5); mk_hrow 3 0 None] in
+  let ops := [ODelete (HOr (HIds [1]) (HIds [2])) 7; OFind HAll; OUFind HAll; ODelete HAll 8; OUDelete (HIds [1])] in
+  hrun s0 ops = ([mk_hrow 2 0 (Some 5); mk_hrow 3 0 (Some 8)], [[1]; [3]; [1; 2; 3]; [1]; [1]]).
 Proof. vm_compute. reflexivity. Qed.
